@@ -40,7 +40,7 @@ type c16StressScenario struct {
 
 func c16GenStress(t *rapid.T) c16StressScenario {
 	s := c16StressScenario{}
-	maxTags := 12
+	maxTags := c16MaxTags
 	if vt.Known(c16KnownTagOrder) {
 		maxTags = 1 // the open finding's class is excluded by construction
 	}
